@@ -253,6 +253,19 @@ var le = func() *logrus.Entry {
 	return logrus.NewEntry(l)
 }()
 
+// equalUUID: every fake link reports the SAME link UUID (link UUIDs are only
+// host-unique per transport and repeatable between re-constructions, so two
+// attached values of one EstablishLinkWithPeer instance may share one); the
+// directive values stay distinct. The handler must count values, not UUIDs.
+var equalUUID bool
+
+func uuidNote() string {
+	if equalUUID {
+		return "all links report the same link UUID"
+	}
+	return "distinct"
+}
+
 func newEnv(sequential bool) *env {
 	ctrl, err := link_holdopen_controller.NewController(nil, le)
 	if err != nil {
@@ -267,9 +280,16 @@ func newEnv(sequential bool) *env {
 	}
 	e := &env{inst: inst, h: inst.handler, vals: map[int]directive.AttachedValue{}, ctrl: ctrl}
 	for i := 0; i < 8; i++ {
-		e.vals[i] = directive.NewAttachedValue(uint32(i+1), link.MountedLink(&fakeLink{uuid: uint64(100 + i), local: "local-peer", remote: "target-peer"}))
+		e.vals[i] = directive.NewAttachedValue(uint32(i+1), link.MountedLink(&fakeLink{uuid: linkUUID(i), local: "local-peer", remote: "target-peer"}))
 	}
 	return e
+}
+
+func linkUUID(i int) uint64 {
+	if equalUUID {
+		return 100
+	}
+	return uint64(100 + i)
 }
 
 type notALink struct{ x int }
@@ -377,7 +397,7 @@ func emit(c *hx.Ctx, acts []act, class string) {
 		acqT[i] = fmt.Sprint(o[0])
 		relT[i] = fmt.Sprint(o[1])
 	}
-	desc := map[string]any{"actions": strings.Join(names, "; "), "acquired_released": fmt.Sprint(obs), "class": class}
+	desc := map[string]any{"actions": strings.Join(names, "; "), "acquired_released": fmt.Sprint(obs), "class": class, "link_uuids": uuidNote()}
 	if !ok {
 		// the Go scheduler did not follow the action list; nothing to compare
 		c.Class("unschedulable")
@@ -536,7 +556,7 @@ func emitGated(c *hx.Ctx, g gatedScript, class string) {
 		names[i] = a.String()
 		terms[i] = a.coq()
 	}
-	desc := map[string]any{"actions": strings.Join(names, "; "), "live_at_yields": fmt.Sprint(lives), "class": class,
+	desc := map[string]any{"actions": strings.Join(names, "; "), "live_at_yields": fmt.Sprint(lives), "class": class, "link_uuids": uuidNote(),
 		"max_addreference_calls_in_flight": maxFlight,
 		"note":                             "Begin = the spawned acquisitions run up to (and are held inside) di.AddReference(nil,false); the callbacks between Begin and Open are delivered while those calls are in flight; Open = the calls return, oldest first"}
 	if !ok {
@@ -680,6 +700,31 @@ func c33(c *hx.Ctx) {
 	for _, a := range fixed {
 		emit(c, a, "fixed")
 	}
+	// the same with links that share one link UUID (distinct directive values)
+	equalUUID = true
+	for _, a := range fixed {
+		emit(c, a, "fixed-same-uuid")
+	}
+	emit(c, []act{{aAdded, 1}, {aAdded, 2}, {kind: aYield}, {aRemoved, 1}, {kind: aYield}, {aRemoved, 2}, {kind: aYield}}, "fixed-same-uuid")
+	emit(c, []act{{aAdded, 1}, {kind: aYield}, {aAdded, 2}, {aAdded, 3}, {aRemoved, 2}, {kind: aYield}, {aRemoved, 3}, {kind: aYield}, {aRemoved, 1}, {kind: aYield}}, "fixed-same-uuid")
+	for n := 2; n <= 4; n++ {
+		enumerate(2, n, func(a []act) {
+			// only lists in which two links are attached at the same time
+			p, both := map[int]bool{}, false
+			for _, x := range a {
+				if x.kind == aAdded {
+					p[x.id] = true
+				} else if x.kind == aRemoved {
+					delete(p, x.id)
+				}
+				both = both || len(p) > 1
+			}
+			if both {
+				emit(c, a, fmt.Sprintf("exhaustive-2links-same-uuid-len%d", n))
+			}
+		})
+	}
+	equalUUID = false
 	// fault injection: AddReference(nil, false) returns nil
 	nilref := [][]act{
 		{{aSetNil, 1}, {aAdded, 1}, {kind: aYield}, {aAdded, 2}, {kind: aYield}, {aRemoved, 1}, {aRemoved, 2}, {kind: aYield}},
@@ -782,7 +827,12 @@ func c33(c *hx.Ctx) {
 			a = append(append(append([]act{}, a[:k]...), act{aSetNil, 1 + c.Rng.Intn(2)}), a[k:]...)
 			cl = "random-nil-reference"
 		}
+		if i%4 == 3 {
+			equalUUID = true
+			cl += "-same-uuid"
+		}
 		emit(c, a, cl)
+		equalUUID = false
 	}
 	debug.SetGCPercent(old)
 
